@@ -178,6 +178,10 @@ class GateRules(Rule):
                     L.violate("C14", "A2", "refused:%s" % ctx,
                               "%s() in state %s / profile %d refused with MQTTStateError though allowed"
                               % (rq.m, rq.state_at_call, c.profile))
+                elif rq.how == "raised":
+                    # an allowed, valid operation is carried out; it does not raise half-way through
+                    L.violate("C14", "A2", "raised:%s:%s" % (ctx, rq.exc),
+                              "%s() in state %s / profile %d is allowed but raised %s" % (rq.m, rq.state_at_call, c.profile, rq.exc))
         if d.kind == "data" and not d.desync and d.frame_fx:
             tags = [fx["tag"] for fx in d.frame_fx]
             if all(t == "foreign" for t in tags):
